@@ -185,6 +185,10 @@ def r_point(ctx: Ctx, model, tr):
 def run(ctx: Ctx):
     from ..sites import model_methods_stateless as _mms
     _mms(ctx, load(ctx.root), "C11", "S-fresh")
+    from ..sites import methods_store_nothing as _msn
+    _msn(ctx, load(ctx.root), "C11", "S-fresh", ("pygaps.core.pointisotherm.PointIsotherm.spreading_pressure_at",
+                                                 "pygaps.core.modelisotherm.ModelIsotherm.spreading_pressure_at"),
+         "a remembered partial integral is not invalidated by every conversion / data change, so later spreading pressures belong to other data")
     model = load(ctx.root)
     tr = Translator(model)
     ctx.assume("sympy's normalisation / integration of rational functions is sound; scipy quad integrates its integrand")
